@@ -261,6 +261,21 @@ func oneKey(im *impl, k, nm int) {
 	okr := lib.NewRng("c04/otherkey/"+p.Name, k)
 	opkb, _ := p.KeyGen(okr.Bytes(32))
 	opkObj, _ := im.unpackPK(opkb)
+	// key objects are re-used: the object that held the other key is loaded
+	// with this key (UnmarshalBinary) and must then describe and verify for
+	// this key exactly like a fresh decode (the matrix A is re-expanded)
+	reusedPK, _ := im.unpackPK(opkb)
+	if u, ok := reusedPK.(interface{ UnmarshalBinary([]byte) error }); ok && reusedPK != nil {
+		_ = im.verify(reusedPK, []byte("warm"), nil, make([]byte, p.SigSize()))
+		if err := u.UnmarshalBinary(lib.Clone(pkb)); err != nil || !lib.Eq(im.packPK(reusedPK), pkb) {
+			viol(im, monDiff, "keygen-mismatch", "public-key-object-reloaded", "seed", seed, "err", err)
+			reusedPK = nil
+		} else {
+			lib.Count("pk-object-reloaded")
+		}
+	} else {
+		reusedPK = nil
+	}
 
 	zero := make([]byte, 32)
 	for m := 0; m < nm; m++ {
@@ -301,6 +316,9 @@ func oneKey(im *impl, k, nm int) {
 			pko = pkU
 		}
 		checkVerdict(im, monDiff, "honest", pko, pkb, msg, ctx, want)
+		if reusedPK != nil && m < 2 {
+			checkVerdict(im, monDiff, "honest", reusedPK, pkb, msg, ctx, want)
+		}
 		if m >= 2 && !lib.Thorough() {
 			continue
 		}
